@@ -6,7 +6,26 @@ import (
 
 // operand pairs whose sum / difference / product lands next to a multiple of n before reduction
 func (m *M) scalarPair() (string, string, *big.Int, *big.Int) {
-	switch m.rng.Intn(8) {
+	switch m.rng.Intn(10) {
+	case 8, 9: // the two values share their low 64-bit limbs and differ in an upper one (or only there)
+		b := m.randBig(bigN)
+		if m.rng.Intn(2) == 0 {
+			b = big.NewInt(int64(m.rng.Intn(16)))
+		}
+		j := uint(64 * (1 + m.rng.Intn(3)))
+		b.Mod(b, new(big.Int).Lsh(one, j)) // keep only the limbs below j
+		d := new(big.Int).Lsh(big.NewInt(int64(1+m.rng.Intn(3))), j)
+		a := new(big.Int).Add(b, d)
+		if m.rng.Intn(3) == 0 { // and a lower limb where the larger value is SMALLER
+			if j >= 128 {
+				a.Sub(a, new(big.Int).Lsh(one, j-64))
+				a.Add(a, big.NewInt(0))
+				b.Add(b, new(big.Int).Lsh(one, j-64))
+			}
+		}
+		a.Mod(a, bigN)
+		b.Mod(b, bigN)
+		return "same_low_limbs", "", a, b
 	case 0: // a + b in [n-2, n+2]
 		a := m.randBig(bigN)
 		b := new(big.Int).Sub(bigN, a)
@@ -170,6 +189,23 @@ func genC07(m *M, budget int) {
 				data = hx
 			}
 			m.SDecodeForm(0, form, data)
+			if i%4 == 3 { // the encoding must follow the value through every mutator (Set, Copy, arithmetic, CSelect)
+				m.SEncode(0)
+				m.putScalar(1, m.anyScalarClass())
+				switch m.rng.Intn(5) {
+				case 0:
+					m.SSet(0, 1)
+				case 1:
+					m.SCopy(0, 1)
+				case 2:
+					m.SAdd(0, 1)
+				case 3:
+					m.SCSelect(0, 1, 0, 1)
+				default:
+					m.SMul(0, 1)
+				}
+				m.SHex(0)
+			}
 			// Encode o Decode and the other views
 			enc := m.SEncode(0)
 			h := m.SHex(0)
@@ -223,6 +259,24 @@ func genC13(m *M, budget int) {
 				m.SEqual(2, 0)
 				m.SLessOrEqual(2, 0)
 			}
+		}
+		// values whose STORED limbs are those of 0, 1 or -1 with a bit or a limb changed: the zero / one / equality
+		// tests work on the stored limbs
+		for i := 0; i < 10; i++ {
+			m.putScalar(0, "mont_near_const")
+			m.SIsOne(0)
+			m.SIsZero(0)
+			switch i % 3 {
+			case 0:
+				m.SOne(1)
+			case 1:
+				m.SZero(1)
+			default:
+				m.SMinusOne(1)
+			}
+			m.SEqual(0, 1)
+			m.SEqual(1, 0)
+			m.SLessOrEqual(0, 1)
 		}
 	}
 }
